@@ -31,6 +31,7 @@ import (
 	itutiltypes "github.com/EscanBE/evermint/v12/integration_test_util/types"
 	cpcabi "github.com/EscanBE/evermint/v12/x/cpc/abi"
 	cpctypes "github.com/EscanBE/evermint/v12/x/cpc/types"
+	rpctypes "github.com/EscanBE/evermint/v12/rpc/types"
 	evmtypes "github.com/EscanBE/evermint/v12/x/evm/types"
 	feemarkettypes "github.com/EscanBE/evermint/v12/x/feemarket/types"
 	vauthtypes "github.com/EscanBE/evermint/v12/x/vauth/types"
@@ -460,6 +461,34 @@ func TestEngineCrash(t *testing.T) {
 		}
 		if i%5 == 4 {
 			liveness("batch")
+		}
+
+		// ---------------------------------------------------------------- JSON-RPC parameter decoding
+		// go-ethereum's rpc server decodes the arguments of a request (json.Unmarshal into the parameter types) in its dispatch
+		// goroutine, *outside* the recover() that wraps the method call: a panic in an UnmarshalJSON of a parameter type ends
+		// the node process.  Hostile block parameters, as eth_getBalance / eth_call / eth_getBlockByNumber … receive them
+		if i%3 == 0 {
+			texts := []string{`"latest"`, `"Latest"`, `"lastest"`, `"1e3"`, `"0b101"`, `"12 "`, `""`, `null`, `-1`, `"-1"`, `"0x"`, `"0xzz"`, `"0x10000000000000000"`,
+				`"99999999999999999999999999"`, `12`, `1.5`, `true`, `[]`, `{}`, `{"blockNumber":"abc"}`, `{"blockNumber":"1e3"}`, `{"blockNumber":null}`, `{"blockHash":"0x12"}`,
+				`{"blockHash":"zz","blockNumber":"0x1"}`, `{"blockNumber":"0x1","requireCanonical":"yes"}`, `"pending"`, `"earliest"`, `"safe"`, `"finalized"`, `"0x7fffffffffffffff"`, `" 0x1"`}
+			txt := hx.Pick(r, texts)
+			if r.Chance(1, 4) {
+				txt = `"` + strings.Trim(string(randBytes(1+r.Intn(12))), "\"\\") + `"`
+			}
+			sentinel("jsonrpc-param", "BlockNumber", []byte(txt), func() string {
+				var bn rpctypes.BlockNumber
+				if err := json.Unmarshal([]byte(txt), &bn); err != nil {
+					return "rejected"
+				}
+				return "ok"
+			})
+			sentinel("jsonrpc-param", "BlockNumberOrHash", []byte(txt), func() string {
+				var bnh rpctypes.BlockNumberOrHash
+				if err := json.Unmarshal([]byte(txt), &bnh); err != nil {
+					return "rejected"
+				}
+				return "ok"
+			})
 		}
 
 		// ---------------------------------------------------------------- queries
